@@ -356,3 +356,22 @@ Qed.
 
 Theorem spec_prefix_ids_contiguous S p : sorted_lt S -> contiguous (spec_prefix_ids S p).
 Proof. intros. apply prefix_ids_contiguous_from. assumption. Qed.
+
+(* ---- metadata --------------------------------------------------------------- *)
+Lemma spec_maxlen_bounds_aux : forall S s, In s S -> lenN s <= spec_maxlen S.
+Proof.
+  unfold spec_maxlen. induction S as [|t r IH]; intros s Hin; [contradiction|].
+  cbn [fold_right]. destruct Hin as [->|Hin]; [lia|]. specialize (IH s Hin). lia.
+Qed.
+
+Lemma spec_maxlen_attained_aux : forall S, S <> [] -> exists s, In s S /\ lenN s = spec_maxlen S.
+Proof.
+  unfold spec_maxlen. induction S as [|t r IH]; intros H; [congruence|].
+  cbn [fold_right]. destruct r as [|u r'].
+  - exists t. split; [left; reflexivity|]. cbn [fold_right]. lia.
+  - destruct (IH ltac:(discriminate)) as (s & Hin & Hl).
+    destruct (N.le_ge_cases (lenN t) (fold_right (fun s m => N.max (lenN s) m) 0 (u :: r'))) as [Hle|Hge].
+    + exists s. split; [right; exact Hin|]. lia.
+    + exists t. split; [left; reflexivity|]. lia.
+Qed.
+
